@@ -24,11 +24,20 @@ DoSetUserData == \E len \in {0, 8} : len # obj.ud.len /\ SetUserData(len)
 DoSetConstraints == \E c \in {0, 1} : SetConstraints(c)
 DoBuild1 == \E ks \in Menu1 : \E used \in 1..Len(ks) : \E img \in {0, 4660} : Build1(ks, used, img, 3)
 DoSetImageLength == \E n \in {2048} : SetImageLength(n)
-Next == /\ UNCHANGED lane
-        /\ \/ lane = "compute" /\ DoCompute
-           \/ lane = "files" /\ (DoWriteFile \/ DoReadByPath)
-           \/ lane = "cb21" /\ (DoBuild21 \/ Export21 \/ Parse21 \/ DoSetUserData \/ DoSetConstraints)
-           \/ lane = "cb1" /\ (DoBuild1 \/ Export1 \/ Parse1 \/ DoSetImageLength)
+LCompute == lane = "compute" /\ DoCompute /\ UNCHANGED lane
+LWriteFile == lane = "files" /\ DoWriteFile /\ UNCHANGED lane
+LReadByPath == lane = "files" /\ DoReadByPath /\ UNCHANGED lane
+LBuild21 == lane = "cb21" /\ DoBuild21 /\ UNCHANGED lane
+LExport21 == lane = "cb21" /\ Export21 /\ UNCHANGED lane
+LParse21 == lane = "cb21" /\ Parse21 /\ UNCHANGED lane
+LSetUserData == lane = "cb21" /\ DoSetUserData /\ UNCHANGED lane
+LSetConstraints == lane = "cb21" /\ DoSetConstraints /\ UNCHANGED lane
+LBuild1 == lane = "cb1" /\ DoBuild1 /\ UNCHANGED lane
+LExport1 == lane = "cb1" /\ Export1 /\ UNCHANGED lane
+LParse1 == lane = "cb1" /\ Parse1 /\ UNCHANGED lane
+LSetImageLength == lane = "cb1" /\ DoSetImageLength /\ UNCHANGED lane
+Next == \/ LCompute \/ LWriteFile \/ LReadByPath \/ LBuild21 \/ LExport21 \/ LParse21 \/ LSetUserData \/ LSetConstraints
+        \/ LBuild1 \/ LExport1 \/ LParse1 \/ LSetImageLength
 MCInit == Init /\ lane \in {"compute", "files", "cb21", "cb1"}
 Spec == MCInit /\ [][Next]_<<vars, lane>>
 Bounded == obj.ud.v <= 2 /\ TLCGet("level") <= (CASE lane = "files" -> 4 [] lane = "compute" -> 2 [] OTHER -> 6)
